@@ -23,6 +23,8 @@ def gen(rng, maxdepth=6):
     for i in range(depth):
         k = rng.choice(KINDS)
         layers.append({"kind": k, "raises": (k in ("map", "flat_map") and rng.random() < 0.12),
+                       # with_map(fn, error_fn): the error function swallows a failure and returns None
+                       "efn": (k == "map" and rng.random() < 0.25),
                        "max_attempts": rng.randint(1, 3), "count": rng.randint(1, 2),
                        # poll function: the call indices at which it raises (after it has been shown its descriptors)
                        "poll_raise": (rng.choice([[0], [1], [0, 2], [0, 1]]) if (k == "poll" and rng.random() < 0.3) else [])})
@@ -41,7 +43,9 @@ def wire(p, s):
     for i in reversed(range(len(p["layers"]))):
         l = p["layers"][i]
         k = l["kind"]
-        if k == "map":
+        if k == "map" and l.get("efn") and not l["raises"]:
+            lay += [5, i, 0]
+        elif k == "map":
             lay += [0, i, 1 if l["raises"] else 0]
         elif k == "flat_map":
             lay += [1, i, 1 if l["raises"] else 0]
@@ -78,10 +82,12 @@ def execute(p, chooser):
                             e = CE(2000 + i)
                             obs["raised"].setdefault("L%d" % i, []).append(e)
                             raise e
-                        r = v * 16 + i
+                        r = (-1 if v is None else v) * 16 + i       # None (a swallowed failure) counts as -1, as in Stack.v
                         return f_return(r) if flat else r
                     return fn
-                if k == "map":
+                if k == "map" and l.get("efn") and not l["raises"]:
+                    ex = ex.with_map(mkfn(), error_fn=lambda e, i=i: obs["fncalls"].setdefault(i, []).append(e))
+                elif k == "map":
                     ex = ex.with_map(mkfn())
                 elif k == "flat_map":
                     ex = ex.with_flat_map(mkfn())
@@ -97,7 +103,7 @@ def execute(p, chooser):
                             obs["pollraise"].append((i, kcall, e, shown))
                             raise e
                         for d in ds:
-                            d.yield_result(d.result * 16 + i)
+                            d.yield_result((-1 if d.result is None else d.result) * 16 + i)
                     ex = ex.with_poll(poll_fn, default_interval=1)
                 elif k == "retry":
                     ex = ex.with_retry(max_attempts=l["max_attempts"], sleep=1)
@@ -180,8 +186,12 @@ def monitor(r, obs):
     pexc = {}
     for (i, kcall, e, shown) in obs.get("pollraise", []):
         below = sum(1 for l in p["layers"][:i] if l["kind"] in ("map", "flat_map", "poll"))
-        vs = set(x >> (4 * below) for x in shown if isinstance(x, int))
-        hit = set(s for s in range(len(p["subs"])) if p["subs"][s]["v"] in vs)
+        if any((x is None) or (isinstance(x, int) and x < 0) for x in shown):
+            # a swallowed failure below (error_fn returned None): the descriptor no longer identifies its submission
+            hit = set(range(len(p["subs"])))
+        else:
+            vs = set(x >> (4 * below) for x in shown if isinstance(x, int))
+            hit = set(s for s in range(len(p["subs"])) if p["subs"][s]["v"] in vs)
         affected |= hit
         pexc[id(e)] = (i, kcall, hit)
     for s in range(len(p["subs"])):
@@ -209,7 +219,7 @@ def monitor(r, obs):
             out.append({"what": "no future for submission %d" % s, "detail": s, "pattern": "stack:missing"})
             continue
         if kind == 0:
-            if got != ("ok", val):
+            if got != ("ok", val) and not (val == -1 and got == ("ok", None)):
                 out.append({"what": "submission %d: %r, sequential evaluation gives value %d" % (s, got, val), "detail": s, "pattern": "stack:outcome"})
         else:
             ok = got[0] == "err" and isinstance(got[1], CE) and got[1].args[0] == val
